@@ -215,6 +215,23 @@ def record_cli_case(cid, seed, origin='random'):
             events.append({'a': 'concat', 'kind': 'seq', 'setlike': 'F', 'what': 'transform ' + destfmt,
                            'a_': [x for x in ra['A.out'] if x != ''], 'b_': [x for x in rb['B.out'] if x != ''],
                            'ab': [x for x in rab['AB.out'] if x != '']})
+        # the driver adds nothing of its own: the file equals what the same reader, transformations (each applied
+        # to what the previous one returned) and writer give when composed by hand through the API
+        import json as _json
+        import subprocess as _sp
+        pa = _sp.run([core.VENV_PY, '-m', 'harness.api_conv'], cwd=tmp,
+                     env=dict(os.environ, PYTHONPATH=core.VERIF + os.pathsep + core.REPO, PYTHONHASHSEED='0',
+                              PYTHONDONTWRITEBYTECODE='1'),
+                     input=_json.dumps({'src': os.path.join(tmp, 'AB.export'), 'srcfmt': 'export', 'destfmt': destfmt,
+                                        'trans': trans, 'params': {}, 'srcopts': {}, 'destopts': {}}).encode(),
+                     stdout=_sp.PIPE, stderr=_sp.PIPE)
+        try:
+            api_lines = _json.loads(pa.stdout.decode())['lines']
+        except Exception:
+            api_lines = ['<api composition failed: %s>' % pa.stderr.decode('utf-8', 'replace')[-200:]]
+        if destfmt != 'tigerxml':      # (its XML declaration names the encoding the command line was given)
+            events.append({'a': 'repeat', 'setlike': 'F', 'what': 'transform %s: command line vs API composition' % destfmt,
+                           'out1': rab['AB.out'], 'out2': api_lines})
         # --split: the parts, in order, are the unsplit output (every sentence transformed as without --split)
         if destfmt != 'tigerxml':
             spec = rnd.choice(['1#_rest', '50%_50%', 'rest_1#'])
@@ -242,6 +259,28 @@ def record_cli_case(cid, seed, origin='random'):
         events.append({'a': 'concat', 'kind': 'seq', 'setlike': 'F', 'what': 'gf_split + binarize, recurring decorated label',
                        'a_': [x for x in la['LA.out'] if x != ''], 'b_': [x for x in lb['LB.out'] if x != ''],
                        'ab': [x for x in lab_['LAB.out'] if x != '']})
+        # directory mode with a terminal file: two files whose sentences have the same id but different lengths;
+        # each file's result must be what the file gives when converted alone (a row that is out of range for
+        # one sentence is still due for the other)
+        def flat(sid, n, w):
+            return '#BOS %d\n' % sid + ''.join('%s%d\t\t\tNN\t--\t\t--\t0\n' % (w, i) for i in range(1, n + 1)) + '#EOS %d\n' % sid
+        write('terms.txt', '1 5 sehr ADV\n1 1 ganz ADV\n')
+        for tag, (n1, n2) in (('sl', (2, 6)), ('ls', (6, 2))):
+            dd = 'dir_' + tag
+            os.mkdir(os.path.join(tmp, dd))
+            write(dd + '/f1.export', flat(1, n1, 'a'))
+            write(dd + '/f2.export', flat(1, n2, 'b'))
+            tp = ['--trans', 'insert_terminals', '--params', 'terminalfile:terms.txt', 'quiet']
+            cli_lines(['transform', dd, 'unused'] + tp, tmp, [])
+            both = []
+            for fn in ('f1.export', 'f2.export'):
+                pth = os.path.join(tmp, dd, fn + '.dest')
+                both.append(open(pth, encoding='utf-8').read().split('\n') if os.path.exists(pth) else ['<missing>'])
+            alone = [cli_lines(['transform', dd + '/' + fn, '%s_%s.out' % (tag, fn)] + tp, tmp, ['%s_%s.out' % (tag, fn)])
+                     ['%s_%s.out' % (tag, fn)] for fn in ('f1.export', 'f2.export')]
+            events.append({'a': 'concat', 'kind': 'seq', 'setlike': 'F', 'what': 'directory mode, insert_terminals, same sentence id (%s)' % tag,
+                           'a_': [x for x in alone[0] if x != ''], 'b_': [x for x in alone[1] if x != ''],
+                           'ab': [x for x in both[0] + both[1] if x != '']})
         r2 = conv('AB.export', 'AB2.out', hs=str(rnd.randint(1, 999)))
         events.append({'a': 'repeat', 'setlike': 'F', 'what': 'transform ' + destfmt,
                        'out1': rab['AB.out'], 'out2': r2['AB2.out']})
